@@ -7,7 +7,8 @@ from harness import materialise
 class Adapter:
     case_timeout = 60
 
-    def __init__(self, **kw):
+    def __init__(self, view_key='exp', **kw):
+        self.view_key = view_key            # LangGen cases carry the language view under 'lgexp'
         pass
 
     def on_timeout(self, case):
@@ -17,7 +18,8 @@ class Adapter:
     def run_case(self, case):
         from maltoolbox.language import LanguageGraph
         L = case['lang']
-        exp = case['exp']
+        exp = case[self.view_key]
+        case = dict(case, broken=case.get('broken', []), name=case.get('name', 'generated'))
         res = {'steps': 0, 'div': [], 'features': []}
 
         def div(comp, detail):
@@ -65,6 +67,35 @@ class Adapter:
             for u in names:
                 if by[t].is_subasset_of(by[u]) != ((t, u) in pairs):
                     div('is_subasset_of', {'asset': t, 'of': u, 'got': by[t].is_subasset_of(by[u])})
+        for c in exp.get('common', []):
+            got = sorted(x for x in by[c['a']].get_all_common_superassets(by[c['b']]) if x is not None)
+            if got != sorted(c['anc']):
+                div('common_superassets', {'a': c['a'], 'b': c['b'], 'want': sorted(c['anc']), 'got': got})
+        by_idx = {v: k for k, v in assoc_idx.items()}
+        all_fields = {d['lf'] for d in L['assocs']} | {d['rf'] for d in L['assocs']}
+        objs = {id(a): a for a in lg.associations}
+        for e in exp.get('ends', []):
+            a = objs.get(by_idx.get(e['i']))
+            if a is None:
+                continue
+            d = L['assocs'][e['i'] - 1]
+            for t in names:
+                if a.contains_asset(by[t]) != (t in e['has']):
+                    div('association_contains_asset', {'assoc': e['i'], 'asset': t, 'got': a.contains_asset(by[t])})
+            opp = {p[0]: p[1] for p in e['opp']}
+            for t in names:
+                o = a.get_opposite_asset(by[t])
+                if (o.name if o is not None else None) != opp.get(t):
+                    div('association_opposite_asset', {'assoc': e['i'], 'asset': t, 'want': opp.get(t), 'got': o.name if o is not None else None})
+            for f in sorted(set(all_fields) | {'zznofield'}):
+                if a.contains_fieldname(f) != (f in e['fields']):
+                    div('association_contains_fieldname', {'assoc': e['i'], 'field': f})
+                if f in e['fields']:
+                    want = d['rf'] if f == d['lf'] else d['lf']
+                    if d['lf'] == d['rf']:
+                        want = d['rf']
+                    if a.get_opposite_fieldname(f) != want:
+                        div('association_opposite_fieldname', {'assoc': e['i'], 'field': f, 'got': a.get_opposite_fieldname(f)})
         for q in exp['lookups']:
             got = lg.get_association_by_fields_and_assets(q['f1'], q['f2'], q['T1'], q['T2'])
             gi = assoc_idx.get(id(got), -1) if got is not None else 0
@@ -90,6 +121,39 @@ class Adapter:
         c3 = {(a, b, d) for (a, b, c, d) in child}
         if c3 != w3:
             div('links', {'missing': sorted(w3 - c3)[:5], 'unexpected': sorted(c3 - w3)[:5]})
+        # the serialised form says the same as the objects; the stored language specification is the caller's, and a
+        # graph rebuilt from the saved specification (json) or regenerated in place is the same graph
+        try:
+            d1 = lg._to_dict()
+            if sorted(a['name'] for a in d1['Assets']) != sorted(names):
+                div('serialised_assets', {'got': sorted(a['name'] for a in d1['Assets'])})
+            if len(d1['Associations']) != len(L['assocs']):
+                div('serialised_associations', {'got': len(d1['Associations'])})
+            ser = set()
+            for st in d1['Attack Steps']:
+                for tname in st['children']:
+                    ser.add((st['asset'], st['name'], tname.split(':')[-1]))
+            if ser != c3:
+                div('serialised_links', {'only_serialised': sorted(ser - c3)[:5], 'only_objects': sorted(c3 - ser)[:5]})
+            import os, json as _json, tempfile
+            spec = materialise.spec_of(L)
+            fd, path = tempfile.mkstemp(suffix='.json', dir=os.getcwd())
+            os.close(fd)
+            try:
+                lg.save_language_specification_to_json(path)
+                stored = _json.load(open(path, encoding='utf-8'))
+            finally:
+                os.unlink(path)
+            if _json.dumps(stored, sort_keys=True) != _json.dumps(spec, sort_keys=True):
+                div('saved_specification_differs', {})
+            lg2 = LanguageGraph(stored)
+            if _json.dumps(lg2._to_dict(), sort_keys=True, default=str) != _json.dumps(d1, sort_keys=True, default=str):
+                div('rebuilt_from_saved_specification_differs', {})
+            lg.regenerate_graph()
+            if _json.dumps(lg._to_dict(), sort_keys=True, default=str) != _json.dumps(d1, sort_keys=True, default=str):
+                div('regenerated_language_graph_differs', {})
+        except Exception as e:
+            div('serialisation_raises', {'error': repr(e)[:300]})
         for b in case['broken']:
             res['steps'] += 1
             try:
